@@ -205,8 +205,14 @@ fn run_e1_property(id: &str, thorough: bool, ev: &mut Evidence, t0: Instant) {
         if thorough {
             fams.push(families::fd(2, 2, families::all_anchors(2, 2), 3, "all 49 anchors"));
         } else {
-            let a: Vec<(usize, usize)> = families::all_anchors(2, 2).into_iter().filter(|(f, r)| (f + r) % 2 == 0).collect();
-            fams.push(families::fd(2, 2, a, 3, "the 25 anchors with file + row even (every square is covered)"));
+            if id == "C01" {
+                // C01 carries the most families; its 2x2 fillings use the 16 anchors with file and row even (a tiling)
+                let a: Vec<(usize, usize)> = families::all_anchors(2, 2).into_iter().filter(|(f, r)| f % 2 == 0 && r % 2 == 0).collect();
+                fams.push(families::fd(2, 2, a, 3, "the 16 anchors with file and row even (a tiling of the board)"));
+            } else {
+                let a: Vec<(usize, usize)> = families::all_anchors(2, 2).into_iter().filter(|(f, r)| (f + r) % 2 == 0).collect();
+                fams.push(families::fd(2, 2, a, 3, "the 25 anchors with file + row even (every square is covered)"));
+            }
         }
     }
     if thorough {
